@@ -30,6 +30,10 @@ type c22g struct {
 	hasErr  bool
 	arrows  bool
 	lookNts []string
+	wide    bool     // c22.gen2: the additional features of c22gen2.go
+	aliases []string // wide: aliases introduced in the current rule
+	target  string
+	cur     string // wide: the nonterminal being defined
 }
 
 func (g *c22g) pick(xs []string) string {
@@ -64,9 +68,17 @@ func (g *c22g) args(nt string) string {
 		case 1:
 			as = append(as, "~"+p)
 		case 2:
-			as = append(as, p+"="+g.pick(append(g.flags, "true", "false")))
+			if g.wide {
+				as = append(as, p+": "+g.pick(append(append([]string{}, g.params[g.cur]...), "true", "false", "true", "false", "\"v\"")))
+			} else {
+				as = append(as, p+"="+g.pick(append(g.flags, "true", "false")))
+			}
 		case 3:
-			as = append(as, p)
+			if g.wide && !contains(g.params[g.cur], p) {
+				as = append(as, "+"+p)
+			} else {
+				as = append(as, p)
+			}
 		default: // omitted: must be propagated from the context
 		}
 	}
@@ -108,6 +120,9 @@ func (g *c22g) setExpr(d int) string {
 }
 
 func (g *c22g) part(d int) string {
+	if g.wide && g.chance(4) {
+		return g.widePart(d)
+	}
 	switch g.rng.Intn(22 + d*6) {
 	case 0:
 		return g.ref() + "?"
@@ -162,6 +177,9 @@ func (g *c22g) rhs(d int) string {
 	if d == 0 && g.chance(8) {
 		return "%empty"
 	}
+	if g.wide && d == 0 && n == 0 && !g.chance(10) {
+		return "%empty"
+	}
 	var ps []string
 	for i := 0; i < n; i++ {
 		ps = append(ps, g.part(d))
@@ -174,10 +192,16 @@ func (g *c22g) rhs(d int) string {
 
 func (g *c22g) rule(nt string) string {
 	var sb strings.Builder
+	g.aliases = g.aliases[:0]
+	g.cur = nt
 	if ps := g.params[nt]; len(ps) > 0 && g.chance(2) {
 		sb.WriteString("[" + g.pick([]string{"", "!"}) + g.pick(ps))
 		if g.chance(3) {
-			sb.WriteString(g.pick([]string{" && ", " || "}) + g.pick([]string{"", "!"}) + g.pick(append(ps, g.flags...)))
+			if g.wide {
+				sb.WriteString(g.pick([]string{" && ", " || "}) + g.pick([]string{"", "!"}) + g.pick(ps))
+			} else {
+				sb.WriteString(g.pick([]string{" && ", " || "}) + g.pick([]string{"", "!"}) + g.pick(append(ps, g.flags...)))
+			}
 		}
 		sb.WriteString("] ")
 	} else if g.chance(g.wild * 2) {
@@ -191,6 +215,9 @@ func (g *c22g) rule(nt string) string {
 		sb.WriteString(" -> " + g.pick(g.cats))
 		if g.chance(6) {
 			sb.WriteString("/" + g.pick([]string{"Flag1", "Flag2"}))
+		}
+		if g.wide && g.chance(6) {
+			sb.WriteString(" as " + g.pick(g.cats))
 		}
 	}
 	return sb.String()
